@@ -21,6 +21,8 @@ from harness.tlaparse import iter_dump_states
 
 # Coded deviations that spec/Gophermap.tla follows; delete a name when /repo gets the fix:.
 QUIRKS = ["FileMapBase", "NonGopherPort70"]
+if os.environ.get("VERIF_C09_QUIRKS") is not None:      # development: try the model without a quirk
+    QUIRKS = [q for q in os.environ["VERIF_C09_QUIRKS"].split(",") if q]
 
 MC_CFG = """SPECIFICATION Spec
 CONSTANTS
@@ -44,6 +46,7 @@ GEMINI_QUERY = "/GEMINI-QUERY"
 
 _W = None
 _HANDLERS = "default"
+_ROOTS = None          # parent-owned scratch directory holding the workers' document roots (removed by the parent)
 
 
 def _cfg(text, tier=""):
@@ -54,7 +57,11 @@ def _world():
     global _W
     if _W is None:
         from harness.world import World
-        _W = World(handlers=_HANDLERS, overrides={
+        root = None
+        if _ROOTS is not None:
+            import tempfile
+            root = tempfile.mkdtemp(prefix="root-", dir=_ROOTS)
+        _W = World(root=root, handlers=_HANDLERS, overrides={
             ("handlers.dir.DirHandler", "cachetime"): "0",
             ("pygopherd", "servername"): SERVER["host"],
             ("pygopherd", "advertisedport"): SERVER["port"],
@@ -275,11 +282,17 @@ def cases_from_tlc(tier):
 
 
 def replay_cases(cases, handlers="default"):
-    global _HANDLERS
+    global _HANDLERS, _ROOTS
+    import shutil
     from harness import cachelib
     _HANDLERS = handlers
+    _ROOTS = tlc.new_scratch("c09roots")
     procs = int(os.environ.get("VERIF_PROCS") or 16)
-    return cachelib.pool_map(run_case, [c["gm"] for c in cases], _init_worker, procs=procs)
+    try:
+        return cachelib.pool_map(run_case, [c["gm"] for c in cases], _init_worker, procs=procs)
+    finally:
+        shutil.rmtree(_ROOTS, ignore_errors=True)
+        _ROOTS = None
 
 
 def validate(traces, timeout=3000):
@@ -293,8 +306,14 @@ def selftest():
     dropping a row, or dropping a whole view makes TraceC09 reject it, naming the clause."""
     gm = {"kind": "dir", "sel": "/d", "dir": "/d", "eol": "\n", "srv": dict(SERVER),
           "lines": ["hello world", "0Rel\tx", "1NoHost\t/abs\t\t7070", "hWeb\tURL:http://h.example/p"]}
+    global _W
     _init_worker()
-    events, _ = run_case(gm)
+    try:
+        events, _ = run_case(gm)
+    finally:
+        if _W is not None:
+            _W.close()
+            _W = None
     init = {"gm": gm, "protos": PROTOS}
     variants = [{"id": "good", "init": init, "events": events}]
 
@@ -320,16 +339,19 @@ def _dbgkey(traces, rj):
 
 def main(chk, replay=None):
     tier = chk.tier
-    res, cases = cases_from_tlc(tier)
-    if res["inv_violations"]:
-        chk.model_violation("MC_C09", res["inv_violations"], res["out"][-3000:])
-    n_wf = sum(1 for c in cases if c["wf"])
-    if not cases or n_wf == 0:
-        raise core.MachineryError("C09: TLC produced no well-formed gophermap (cases=%d)" % len(cases))
-    if replay:
+    if replay:                       # exactly the stored case; the model is not re-run
         with open(replay) as fp:
             rp = json.load(fp)
         cases = [{"gm": rp["case"]["gm"], "wf": rp["case"]["wf"], "cls": rp["case"]["cls"]}]
+        res = {"distinct": 0, "generated": 0, "cmd": "(replay: model not run)"}
+        n_wf = int(bool(rp["case"]["wf"]))
+    else:
+        res, cases = cases_from_tlc(tier)
+        if res["inv_violations"]:
+            chk.model_violation("MC_C09", res["inv_violations"], res["out"][-3000:])
+        n_wf = sum(1 for c in cases if c["wf"])
+        if not cases or n_wf == 0:
+            raise core.MachineryError("C09: TLC produced no well-formed gophermap (cases=%d)" % len(cases))
     handler_lists = ["default"] if tier == "quick" or replay else ["default", "full"]
     if replay and rp["case"].get("handlers"):
         handler_lists = [rp["case"]["handlers"]]
